@@ -113,11 +113,25 @@ Definition and_text (c : list bq) : list N :=
 Definition q_text (d : list (list bq)) : list N :=
   match d with [] => [] | c :: cs => and_text c ++ flat_map (fun x => [124; 124] ++ and_text x) cs end.
 Definition fq_text (d : list (list bq)) : list N := [91; 63; 40] ++ q_text d ++ [41; 93].
+(* basic queries that may be written with blanks: an existence test (negated: `!`, gn blanks after it) or a comparison with a
+   number (a / b blanks around the operator); in a spaced query every basic query is followed by some blanks, and every `&&`
+   and `||` by some more *)
+Inductive sbq := SBE (neg : bool) (gn : nat) (isteps : list rstep)
+              | SBC (isteps : list rstep) (a : nat) (o : cmpop) (b : nat) (lit : list N).
+Definition sbq_text (b : sbq) : list N :=
+  match b with
+  | SBE neg gn i => (if neg then 33 :: blanks gn else []) ++ 64 :: render_steps i
+  | SBC i a o b lit => 64 :: render_steps i ++ blanks a ++ op_text o ++ blanks b ++ lit
+  end.
+Definition selem := (sbq * nat)%type.
+Definition sconj := (selem * list (nat * selem))%type.
+Definition sdnf := (sconj * list (nat * sconj))%type.
 Inductive fstep := FS (x : rstep) | FE (isteps : list rstep) | FC (isteps : list rstep) (o : cmpop) (lit : list N) | FN (isteps : list rstep)
                  | FQ (d : list (list bq))
                  | FR (x : fstep)           (* `..` before a filter: the filter applied to every container below, in pre-order *)
                  | FCS (isteps : list rstep) (g0 a : nat) (o : cmpop) (b g1 : nat) (lit : list N)   (* a comparison with blanks: g0 after `?(`, a / b around the operator, g1 before `)` *)
-                 | FES (neg : bool) (g0 gn : nat) (isteps : list rstep) (g1 : nat).   (* an existence test (negated: `!`) with blanks: after `?(`, after `!`, before `)` *)
+                 | FES (neg : bool) (g0 gn : nat) (isteps : list rstep) (g1 : nat)   (* an existence test (negated: `!`) with blanks: after `?(`, after `!`, before `)` *)
+                 | FQS (g0 : nat) (d : sdnf).   (* a query in disjunctive form with blanks after `?(`, after every basic query, after every `&&` and `||` *)
 Definition scmp_inner (i : list rstep) (a : nat) (o : cmpop) (b : nat) (lit : list N) : list N :=
   64 :: render_steps i ++ blanks a ++ op_text o ++ blanks b ++ lit.
 Definition scmp_text (i : list rstep) (g0 a : nat) (o : cmpop) (b g1 : nat) (lit : list N) : list N :=
@@ -126,8 +140,15 @@ Definition fes_inner (neg : bool) (gn : nat) (i : list rstep) (g1 : nat) : list 
   (if neg then 33 :: blanks gn else []) ++ 64 :: render_steps i ++ blanks g1.
 Definition fes_text (neg : bool) (g0 gn : nat) (i : list rstep) (g1 : nat) : list N :=
   [91; 63; 40] ++ blanks g0 ++ fes_inner neg gn i g1 ++ [41; 93].
+Definition selem_core (e : sbq * nat) : list N := sbq_text (fst e) ++ blanks (snd e).
+Definition sconj_text (c : (sbq * nat) * list (nat * (sbq * nat))) : list N :=
+  selem_core (fst c) ++ flat_map (fun gx : nat * (sbq * nat) => [38; 38] ++ blanks (fst gx) ++ selem_core (snd gx)) (snd c).
+Definition sdnf_text (d : ((sbq * nat) * list (nat * (sbq * nat))) * list (nat * ((sbq * nat) * list (nat * (sbq * nat))))) : list N :=
+  sconj_text (fst d) ++ flat_map (fun gc : nat * ((sbq * nat) * list (nat * (sbq * nat))) => [124; 124] ++ blanks (fst gc) ++ sconj_text (snd gc)) (snd d).
+Definition sfq_text (g0 : nat) (d : ((sbq * nat) * list (nat * (sbq * nat))) * list (nat * ((sbq * nat) * list (nat * (sbq * nat))))) : list N :=
+  [91; 63; 40] ++ blanks g0 ++ sdnf_text d ++ [41; 93].
 Fixpoint render_fstep (x : fstep) : list N :=
   match x with FS y => render_rstep y | FE i => filt_text i | FC i o lit => cmp_text i o lit | FN i => neg_text i | FQ d => fq_text d
-             | FR y => 46 :: 46 :: render_fstep y | FCS i g0 a o b g1 lit => scmp_text i g0 a o b g1 lit | FES neg g0 gn i g1 => fes_text neg g0 gn i g1 end.
+             | FR y => 46 :: 46 :: render_fstep y | FCS i g0 a o b g1 lit => scmp_text i g0 a o b g1 lit | FES neg g0 gn i g1 => fes_text neg g0 gn i g1 | FQS g0 d => sfq_text g0 d end.
 Definition render_fsteps (l : list fstep) : list N := flat_map render_fstep l.
 Definition fchain_path (l : list fstep) : list N := 36 :: render_fsteps l.
